@@ -49,6 +49,9 @@
 
 #include <cstdio>
 #include <memory>
+#include <numeric>
+#include <optional>
+#include <unordered_map>
 #include <nlohmann/json.hpp>
 #include <string>
 #include <vector>
@@ -426,6 +429,7 @@ static int run_exec(const json& c)
 /* ------------------------------------------------------------------------------------------------------------------ */
 
 static int run_unf(const json& c);
+static int run_deps(const json& c);
 
 static int run_case(const std::string& text)
 {
@@ -440,6 +444,8 @@ static int run_case(const std::string& text)
       rc = run_exec(c);
     else if (mode == "unf")
       rc = run_unf(c);
+    else if (mode == "deps")
+      rc = run_deps(c);
     else
       throw std::invalid_argument("unknown mode " + mode);
   } catch (const std::exception& e) {
@@ -458,9 +464,381 @@ static int run_case(const std::string& text)
   return rc;
 }
 
-static int run_unf(const json&)
+/* ------------------------------------------------------------------------------------------------------------------ */
+/* mode deps: pairwise dispatch_depends() of a list of transitions (used by the generators to build valid unfoldings)    */
+
+static int run_deps(const json& c)
 {
-  throw std::invalid_argument("mode unf: not yet");
+  std::vector<TransitionPtr> ts;
+  for (const auto& s : c.at("ts"))
+    ts.push_back(mk(s));
+  json rows = json::array();
+  for (size_t i = 0; i < ts.size(); i++) {
+    std::string row(ts.size(), '0');
+    for (size_t j = 0; j < ts.size(); j++)
+      if (ts[i]->dispatch_depends(ts[j].get()))
+        row[j] = '1';
+    rows.push_back(row);
+  }
+  json out;
+  out["dep"] = rows;
+  printf("%s\n{\"done\":true}\n", out.dump().c_str());
+  return 0;
+}
+
+/* ------------------------------------------------------------------------------------------------------------------ */
+/* mode unf (C44)
+ * case {"mode":"unf","syn":..., "events":[[tspec,[cause index..]]..], "finished":[event index..]?, "q":[query..]}
+ *   events are created in order with Unfolding::discover_event(EventSet(causes), transition); an event index designates
+ *   the handle that call returned (an earlier event when the unfolding found an equivalent one).
+ * First output line: per-event and pairwise facts; then one line per query ({"q":i, ...}):
+ *   ["set", S]               EventSet(S) and History(S) predicates / derived sets
+ *   ["allsets", n]           the same predicates for every subset of the first n events, as strings indexed by the subset mask
+ *   ["cfg", S, T]            Configuration(EventSet(S)) (may throw), and what it computes; History(T) against it
+ *   ["add", [e..]]           Configuration() then add_event(e) in order
+ *   ["alt", C, D, k]         Configuration(C).compute_k_partial_alternative_to(D, U, k)
+ *   ["msi", S, F|null, k|null, viaconfig]  everything maximal_subsets_iterator yields, in order
+ *   ["ksub", n, k] ["pow", n] ["vfl", [sizes..]]   the generic subset enumerators on integer sequences
+ */
+
+struct UnfCtx {
+  std::unique_ptr<udpor::Unfolding> U;
+  std::vector<const udpor::UnfoldingEvent*> ev;
+  std::unordered_map<const udpor::UnfoldingEvent*, int> idx; // handle -> first input index that produced it
+};
+
+static udpor::EventSet set_of(const UnfCtx& x, const json& l)
+{
+  udpor::EventSet s;
+  for (const auto& i : l)
+    s.insert(x.ev.at(i.get<size_t>()));
+  return s;
+}
+static int index_of(const UnfCtx& x, const udpor::UnfoldingEvent* e)
+{
+  auto it = x.idx.find(e);
+  return it == x.idx.end() ? -1 : it->second;
+}
+template <class Range> static json list_of(const UnfCtx& x, const Range& s, bool sorted = true)
+{
+  std::vector<int> v;
+  for (const auto* e : s)
+    v.push_back(index_of(x, e));
+  if (sorted)
+    std::sort(v.begin(), v.end());
+  return json(v);
+}
+
+static json set_facts(const UnfCtx& x, const udpor::EventSet& s)
+{
+  json o;
+  o["valid"]  = s.is_valid_configuration();
+  o["max"]    = s.is_maximal();
+  o["cfree"]  = s.is_conflict_free();
+  o["lms"]    = list_of(x, s.get_largest_maximal_subset());
+  o["lc"]     = list_of(x, s.get_local_config());
+  udpor::History h(s);
+  o["hall"] = list_of(x, h.get_all_events());
+  o["hmax"] = list_of(x, h.get_all_maximal_events());
+  std::string hc(x.ev.size(), '0'), ct(x.ev.size(), '0'), cany(x.ev.size(), '0');
+  for (size_t i = 0; i < x.ev.size(); i++) {
+    if (h.contains(x.ev[i]))
+      hc[i] = '1';
+    if (s.contains(x.ev[i]))
+      ct[i] = '1';
+    if (x.ev[i]->conflicts_with_any(s))
+      cany[i] = '1';
+  }
+  o["hcontains"] = hc;
+  o["contains"]  = ct;
+  o["cany"]      = cany;
+  o["chist"]     = s.contains(h);
+  std::vector<int> iter; // what iterating over the History yields (an event may not appear twice)
+  for (auto it = h.begin(); it != h.end(); ++it)
+    iter.push_back(index_of(x, *it));
+  o["hiter"] = iter;
+  o["topo"]  = list_of(x, s.get_topological_ordering(), false);
+  o["rtopo"] = list_of(x, s.get_topological_ordering_of_reverse_graph(), false);
+  o["size"]  = s.size();
+  return o;
+}
+
+static json cfg_state(const UnfCtx& x, const udpor::Configuration& C, const std::vector<int>& actors)
+{
+  json o;
+  o["events"] = list_of(x, C.get_events());
+  json lat    = json::array();
+  for (int a : actors) {
+    auto le = C.get_latest_event_of(Aid(a));
+    auto la = C.get_latest_action_of(Aid(a));
+    int li  = le.has_value() ? index_of(x, le.value()) : -1;
+    bool ok = le.has_value() == la.has_value() && (not le.has_value() || la.value() == le.value()->get_transition());
+    lat.push_back(json::array({a, li, ok}));
+  }
+  o["latest"] = lat;
+  o["newest"] = C.get_latest_event() == nullptr ? -1 : index_of(x, C.get_latest_event());
+  return o;
+}
+
+static int run_unf(const json& c)
+{
+  UnfCtx x;
+  x.U = std::make_unique<udpor::Unfolding>();
+  std::vector<int> actors;
+  json evl = json::array();
+  for (const auto& e : c.at("events")) {
+    TransitionPtr t = mk(e.at(0));
+    udpor::EventSet causes = set_of(x, e.at(1));
+    const auto* h          = x.U->discover_event(std::move(causes), t);
+    if (x.idx.find(h) == x.idx.end())
+      x.idx[h] = static_cast<int>(x.ev.size());
+    x.ev.push_back(h);
+    evl.push_back(x.idx[h]);
+    if (std::find(actors.begin(), actors.end(), h->get_actor().c_val()) == actors.end())
+      actors.push_back(h->get_actor().c_val());
+  }
+  actors.push_back(29);
+  if (c.contains("finished"))
+    x.U->mark_finished(set_of(x, c.at("finished")));
+  const size_t n = x.ev.size();
+  {
+    json o;
+    o["n"]     = n;
+    o["ev"]    = evl;
+    o["usize"] = x.U->size();
+    o["uall"]  = list_of(x, *x.U);
+    json dep = json::array(), inh = json::array(), rel = json::array(), conf = json::array(), iconf = json::array();
+    json hist = json::array(), lc = json::array(), uic = json::array(), act = json::array(), imm = json::array();
+    for (size_t i = 0; i < n; i++) {
+      std::string d(n, '0'), h(n, '0'), r(n, '0'), cf(n, '0'), ic(n, '0');
+      for (size_t j = 0; j < n; j++) {
+        if (x.ev[i]->is_dependent_with(x.ev[j]))
+          d[j] = '1';
+        if (x.ev[i]->in_history_of(x.ev[j]))
+          h[j] = '1';
+        if (x.ev[i]->related_to(x.ev[j]))
+          r[j] = '1';
+        if (x.ev[i]->conflicts_with(x.ev[j]))
+          cf[j] = '1';
+        if (x.ev[i]->immediately_conflicts_with(x.ev[j]))
+          ic[j] = '1';
+      }
+      dep.push_back(d);
+      inh.push_back(h);
+      rel.push_back(r);
+      conf.push_back(cf);
+      iconf.push_back(ic);
+      hist.push_back(list_of(x, x.ev[i]->get_history()));
+      lc.push_back(list_of(x, x.ev[i]->get_local_config()));
+      uic.push_back(list_of(x, x.U->get_immediate_conflicts_of(x.ev[i])));
+      imm.push_back(list_of(x, x.ev[i]->get_immediate_causes()));
+      act.push_back(x.ev[i]->get_actor().c_val());
+    }
+    o["dep"]     = dep;
+    o["inhist"]  = inh;
+    o["related"] = rel;
+    o["conf"]    = conf;
+    o["iconf"]   = iconf;
+    o["hist"]    = hist;
+    o["lc"]      = lc;
+    o["uic"]     = uic;
+    o["imm"]     = imm;
+    o["actor"]   = act;
+    printf("%s\n", o.dump().c_str());
+  }
+  int qi = -1;
+  for (const auto& q : c.at("q")) {
+    qi++;
+    const std::string what = q.at(0).get<std::string>();
+    json o;
+    o["q"] = qi;
+    try {
+      if (what == "set") {
+        o["r"] = set_facts(x, set_of(x, q.at(1)));
+      } else if (what == "allsets") {
+        size_t m = std::min<size_t>(q.at(1).get<size_t>(), n);
+        std::string valid(1u << m, '0'), mx(1u << m, '0'), cfree(1u << m, '0');
+        json lms = json::array(), hall = json::array();
+        for (unsigned mask = 0; mask < (1u << m); mask++) {
+          udpor::EventSet s;
+          for (size_t i = 0; i < m; i++)
+            if (mask >> i & 1)
+              s.insert(x.ev[i]);
+          if (s.is_valid_configuration())
+            valid[mask] = '1';
+          if (s.is_maximal())
+            mx[mask] = '1';
+          if (s.is_conflict_free())
+            cfree[mask] = '1';
+          unsigned l = 0, ha = 0;
+          for (const auto* e : s.get_largest_maximal_subset())
+            l |= 1u << index_of(x, e);
+          for (const auto* e : udpor::History(s).get_all_events())
+            ha |= 1u << index_of(x, e);
+          lms.push_back(l);
+          hall.push_back(ha);
+        }
+        o["valid"] = valid;
+        o["max"]   = mx;
+        o["cfree"] = cfree;
+        o["lms"]   = lms;
+        o["hall"]  = hall;
+      } else if (what == "cfg") {
+        udpor::EventSet s = set_of(x, q.at(1));
+        std::unique_ptr<udpor::Configuration> C;
+        try {
+          C = std::make_unique<udpor::Configuration>(s);
+        } catch (const std::invalid_argument& e) {
+          o["throws"] = e.what();
+        }
+        if (C) {
+          o["state"] = cfg_state(x, *C, actors);
+          o["mre"]   = list_of(x, C->get_minimally_reproducible_events());
+          o["topo"]  = list_of(x, C->get_topologically_sorted_events(), false);
+          o["rtopo"] = list_of(x, C->get_topologically_sorted_events_of_reverse_graph(), false);
+          std::string comp(n, '0'), cont(n, '0');
+          for (size_t i = 0; i < n; i++) {
+            if (C->is_compatible_with(x.ev[i]))
+              comp[i] = '1';
+            if (C->contains(x.ev[i]))
+              cont[i] = '1';
+          }
+          o["compat"]   = comp;
+          o["contains"] = cont;
+          udpor::EventSet t = set_of(x, q.at(2));
+          udpor::History h(t);
+          o["hdiff"]   = list_of(x, h.get_event_diff_with(*C));
+          o["hcompat"] = C->is_compatible_with(h);
+          o["csub"]    = C->contains(t);
+          // the other constructors
+          if (t.size() == 1) {
+            udpor::Configuration C1(*t.begin());
+            o["c_event"] = list_of(x, C1.get_events());
+          }
+          try {
+            udpor::Configuration C2(h);
+            o["c_hist"] = list_of(x, C2.get_events());
+          } catch (const std::invalid_argument& e) {
+            o["c_hist_throws"] = e.what();
+          }
+        }
+      } else if (what == "add") {
+        udpor::Configuration C;
+        json steps = json::array();
+        for (const auto& ei : q.at(1)) {
+          try {
+            C.add_event(x.ev.at(ei.get<size_t>()));
+            steps.push_back(1);
+          } catch (const std::invalid_argument& e) {
+            steps.push_back(0);
+            break; // the configuration is no longer meaningful
+          }
+        }
+        o["steps"] = steps;
+        o["state"] = cfg_state(x, C, actors);
+      } else if (what == "alt") {
+        udpor::Configuration C(set_of(x, q.at(1)));
+        udpor::EventSet D = set_of(x, q.at(2));
+        try {
+          auto J = C.compute_k_partial_alternative_to(D, *x.U, q.at(3).get<size_t>());
+          if (J.has_value())
+            o["J"] = list_of(x, J.value().get_events());
+          else
+            o["J"] = nullptr;
+        } catch (const std::invalid_argument& e) {
+          o["throws"] = e.what();
+        }
+      } else if (what == "msi") {
+        udpor::EventSet s = set_of(x, q.at(1));
+        std::optional<udpor::maximal_subsets_iterator::node_filter_function> filter = std::nullopt;
+        udpor::EventSet f;
+        if (not q.at(2).is_null()) {
+          f      = set_of(x, q.at(2));
+          filter = [&f](const udpor::UnfoldingEvent* e) { return f.contains(e); };
+        }
+        std::optional<size_t> k = std::nullopt;
+        if (not q.at(3).is_null())
+          k = q.at(3).get<size_t>();
+        json sets  = json::array();
+        long count = 0;
+        long cap   = q.size() > 5 ? q.at(5).get<long>() : 200000;
+        auto run   = [&](udpor::maximal_subsets_iterator first) {
+          udpor::maximal_subsets_iterator last;
+          for (; first != last; ++first) {
+            sets.push_back(list_of(x, *first));
+            if (++count > cap)
+              break;
+          }
+        };
+        if (q.at(4).get<int>() != 0) {
+          udpor::Configuration C(s);
+          o["rtopo"] = list_of(x, C.get_events().get_topological_ordering_of_reverse_graph(), false); // what the iterator walks
+          run(udpor::maximal_subsets_iterator(C, filter, k));
+        } else {
+          o["rtopo"] = list_of(x, s.get_topological_ordering_of_reverse_graph(), false);
+          run(udpor::maximal_subsets_iterator(s, filter, k));
+        }
+        o["sets"] = sets;
+      } else if (what == "ksub") {
+        std::vector<int> v(q.at(1).get<size_t>());
+        std::iota(v.begin(), v.end(), 0);
+        json sets = json::array();
+        for (const auto& sub : simgrid::xbt::make_k_subsets_iter(q.at(2).get<unsigned>(), v)) {
+          std::vector<int> one;
+          for (auto it : sub)
+            one.push_back(*it);
+          sets.push_back(one);
+          if (sets.size() > 300000)
+            break;
+        }
+        o["sets"] = sets;
+      } else if (what == "pow") {
+        std::vector<int> v(q.at(1).get<size_t>());
+        std::iota(v.begin(), v.end(), 0);
+        json sets = json::array();
+        for (const auto& sub : simgrid::xbt::make_powerset_iter(v)) {
+          std::vector<int> one;
+          for (auto it : sub)
+            one.push_back(*it);
+          sets.push_back(one);
+          if (sets.size() > 300000)
+            break;
+        }
+        o["sets"] = sets;
+      } else if (what == "vfl") {
+        std::vector<std::vector<int>> cols;
+        int base = 0;
+        for (const auto& sz : q.at(1)) {
+          std::vector<int> col(sz.get<size_t>());
+          std::iota(col.begin(), col.end(), base);
+          base += 100;
+          cols.push_back(col);
+        }
+        std::vector<std::reference_wrapper<const std::vector<int>>> refs;
+        for (const auto& col : cols)
+          refs.push_back(std::cref(col));
+        json sets = json::array();
+        auto it   = simgrid::xbt::variable_for_loop<const std::vector<int>>(refs);
+        auto end  = simgrid::xbt::variable_for_loop<const std::vector<int>>();
+        for (; it != end; ++it) {
+          std::vector<int> one;
+          for (auto p : *it)
+            one.push_back(*p);
+          sets.push_back(one);
+          if (sets.size() > 300000)
+            break;
+        }
+        o["sets"] = sets;
+      } else
+        throw std::runtime_error("unknown query " + what);
+    } catch (const std::invalid_argument& e) {
+      o["exc"] = std::string("invalid_argument: ") + e.what();
+    }
+    printf("%s\n", o.dump().c_str());
+  }
+  x.U.reset();
+  printf("{\"done\":true}\n");
+  return 0;
 }
 
 int main(int argc, char** argv)
